@@ -83,6 +83,7 @@ type Plan struct {
 	Choices           []int    `json:"choices"`
 	CrashAt           []int    `json:"crashAt,omitempty"`           // scheduler steps at which the process dies and restarts
 	FaultAt           []int    `json:"faultAt,omitempty"`           // indexes (0-based) of InsertLogs calls that fail
+	FaultKind         int      `json:"faultKind,omitempty"`         // what a failing InsertLogs returns: 0 a plain error, 1 a wrapped context.Canceled, 2 a wrapped context.DeadlineExceeded, 3 a wrapped sql.ErrTxDone, 4 io.ErrUnexpectedEOF
 	ReadFaultAt       []int    `json:"readFaultAt,omitempty"`       // indexes (0-based) of store reads issued by requests that fail
 	CancelAt          [][2]int `json:"cancelAt,omitempty"`          // (op index, step) context cancellations
 	CloseAt           []int    `json:"closeAt,omitempty"`           // steps at which the running process is shut down gracefully (Commander.Close while requests are in flight), then restarted
